@@ -10,13 +10,14 @@ open Hagall
 
 variable (cfg : Cfg) (srv : Server) (c rid : Nat) (receipt hash sig : Bytes)
 
-/-- The submitter always gets exactly one answer, and the step is total (never blocks):
+/-- The submitter always gets exactly one answer, the step is total (never blocks) and never ends the connection - a
+    refusal that did would be closed over before it is written (finding F29):
     BAD_REQUEST iff a field is empty, otherwise TOO_BUSY iff the queue is full, otherwise accepted. -/
 theorem C19_answer :
     (receipt.length = 0 ∨ hash.length = 0 ∨ sig.length = 0 →
-        srv.handleReceipt cfg c rid receipt hash sig = (srv, [(c, .error rid ecBadRequest)], .connError)) ∧
+        srv.handleReceipt cfg c rid receipt hash sig = (srv, [(c, .error rid ecBadRequest)], .ok)) ∧
     (¬(receipt.length = 0 ∨ hash.length = 0 ∨ sig.length = 0) → srv.receipts.length ≥ cfg.rcap →
-        srv.handleReceipt cfg c rid receipt hash sig = (srv, [(c, .error rid ecTooBusy)], .connError)) ∧
+        srv.handleReceipt cfg c rid receipt hash sig = (srv, [(c, .error rid ecTooBusy)], .ok)) ∧
     (¬(receipt.length = 0 ∨ hash.length = 0 ∨ sig.length = 0) → srv.receipts.length < cfg.rcap →
         srv.handleReceipt cfg c rid receipt hash sig =
           ({ srv with receipts := srv.receipts ++ [⟨receipt, hash, sig⟩] }, [(c, .receiptResp rid)], .ok)) := by
@@ -147,14 +148,14 @@ theorem C19_conservation (e : Event) :
             by_cases hempty : (rc.length == 0 || h.length == 0 || sg.length == 0) = true
             · left
               simp only [Server.handleReceipt, hempty, if_true]
-              exact hdis _ k
+              simp [pipeline, Server.setConn]
             · by_cases hroom : (srv.setConn k').receipts.length < cfg.rcap
               · right
                 simp only [Server.handleReceipt, hempty, hroom, if_true, if_false, Bool.false_eq_true]
                 exact ⟨rc, h, sg, by simp [pipeline, Server.setConn], k, rid', by simp⟩
               · left
                 simp only [Server.handleReceipt, hempty, hroom, if_false, Bool.false_eq_true]
-                exact hdis _ k
+                simp [pipeline, Server.setConn]
         case false =>
           have h0 := handleReq_pipeline cfg (srv.setConn k') k r hint hrc
           rcases hh : (srv.setConn k').handleReq cfg k r hint with ⟨s1, ds, o⟩
